@@ -208,7 +208,7 @@ def run_check(prop, mod, tier, seed, st, known, t0):
         c = internal[0]
         print("check: internal error on case: %s %s\n  case=%s\n  obs=%s" % (c.get("kind"), c.get("fields"), (c.get("sx") or "")[:2000], (c.get("obs") or "")[:2000]), file=sys.stderr)
     searched = 0
-    if (corr or ob["broken"]) and not viol and hasattr(mod, "gen"):
+    if (corr or ob["broken"]) and not viol and hasattr(mod, "gen") and getattr(mod, "SEARCH", True):
         # a tie or a proof no longer checks: search for a concrete failing input with the oracle
         budget = 120 if tier == "quick" else 900
         ts = time.time()
